@@ -1,6 +1,6 @@
 (* C11/ProofsFix.v — fixed-point clauses of the one-step learners and DynaQ's boundedness. *)
 From Coq Require Import List Arith QArith Qminmax Lqa Lia Bool.
-From AIT Require Import Base.Qx Base.Mdp C11.Model C11.Spec C11.Proofs C11.ProofsTraces.
+From AIT Require Import Base.Qx Base.Mdp C11.Model C11.Spec C11.Proofs C11.ProofsTraces C11.ProofsPS.
 Import ListNotations.
 Local Open Scope Q_scope.
 
@@ -91,4 +91,61 @@ Proof.
     + destruct (dyna_batch alpha g st d) as [st'|] eqn:E; [| exact I]. apply boxed_in_box.
       apply (dyna_batch_boxed g rmin rmax alpha d st st'); assumption.
   - cbn [fst]. apply boxed_in_box. destruct (box_sign g rmin rmax Hg1 Hmin Hmax). apply boxed_qzero; assumption.
+Qed.
+
+(* ---------------------------------------------------------------- DoubleQLearning at Q* *)
+Lemma maxl_nth_ext : forall l l' : vec, length l = length l' -> l <> [] ->
+  (forall i, (i < length l)%nat -> nth i l 0 == nth i l' 0) -> maxl l == maxl l'.
+Proof.
+  intros l l' Hlen Hne H. rewrite (list_map_nth l), (list_map_nth l'), <- Hlen.
+  apply maxl_map_ext.
+  - destruct l; [congruence| discriminate].
+  - intros i Hi. apply in_seq in Hi. apply H. lia.
+Qed.
+
+Lemma vsub_length : forall a b, length a = length b -> length (vsub a b) = length a.
+Proof. intros a b H. unfold vsub. rewrite map_length, combine_length. lia. Qed.
+
+Lemma nth_vsub : forall a b i, length a = length b -> (i < length a)%nat ->
+  nth i (vsub a b) 0 = nth i a 0 - nth i b 0.
+Proof.
+  unfold vsub. induction a as [|x a IH]; intros [|y b] i Hl Hi; cbn [length] in *; try lia.
+  destruct i; cbn [combine map nth fst snd]; [reflexivity|]. apply IH; lia.
+Qed.
+
+(* both tables at the optimum (qa = qb = Qstar, i.e. qc = 2 Qstar): either coin leaves both tables unchanged *)
+Lemma doubleq_optimal_fixpoint_lemma : forall m alpha qa qc coin s a s1,
+  wf_mdp m -> is_qstar m qa -> shape (nS m) (nA m) qa -> shape (nS m) (nA m) qc ->
+  (forall x y, qget qc x y == qget qa x y + qget qa x y) ->
+  (s < nS m)%nat -> (a < nA m)%nat -> (s1 < nS m)%nat -> det_at m s a s1 ->
+  let st' := dq_step alpha (gam m) (qa, qc) (coin, s, a, s1, nthq (row (R m) s) a) in
+  qeqv (fst st') qa /\ qeqv (snd st') qc.
+Proof.
+  intros m alpha qa qc coin s a s1 Hwf Hq Sa Sc Hc Hs Ha Hs1 Hd.
+  assert (HnA : (0 < nA m)%nat) by (destruct Hwf as (_ & ? & _); assumption).
+  assert (La : length (row qa s1) = nA m) by (apply (shape_row _ _ qa s1 Sa Hs1)).
+  assert (Lc : length (row qc s1) = nA m) by (apply (shape_row _ _ qc s1 Sc Hs1)).
+  assert (Hne : row qa s1 <> []) by (intros C; rewrite C in La; cbn in La; lia).
+  assert (Hfix : qget qa s a == nthq (row (R m) s) a + gam m * maxl (row qa s1)).
+  { rewrite (Hq s a Hs Ha). unfold q_of. rewrite (Hd (map maxl qa)), nthq_map_maxl. reflexivity. }
+  cbn [dq_step]. destruct coin; cbn [fst snd].
+  - pose proof (argmax_spec (row qa s1) Hne) as Harg. destruct (argmax (row qa s1)) as [a1 mx].
+    destruct Harg as (Hj & E1 & E2). cbn [fst].
+    assert (T : qget qc s1 a1 - qget qa s1 a1 == maxl (row qa s1)).
+    { rewrite (Hc s1 a1). unfold qget, nthq. rewrite <- E2, E1. lra. }
+    assert (Z : nthq (row (R m) s) a + gam m * maxl (row qa s1) - qget qa s a == 0) by lra.
+    split; apply upd2_same_value; rewrite T, Z; lra.
+  - set (d := vsub (row qc s1) (row qa s1)).
+    assert (Ld : length d = nA m) by (unfold d; rewrite vsub_length; lia).
+    assert (Hned : d <> []) by (intros C; rewrite C in Ld; cbn in Ld; lia).
+    assert (Hd_i : forall i, (i < nA m)%nat -> nth i d 0 == nth i (row qa s1) 0).
+    { intros i Hi. unfold d. rewrite nth_vsub by lia. pose proof (Hc s1 i) as X. unfold qget, nthq in X. lra. }
+    pose proof (argmax_spec d Hned) as Harg. destruct (argmax d) as [a1 mx].
+    destruct Harg as (Hj & E1 & E2). cbn [fst].
+    assert (T : qget qa s1 a1 == maxl (row qa s1)).
+    { unfold qget, nthq. rewrite <- (Hd_i a1) by lia. rewrite <- E2, E1.
+      apply maxl_nth_ext; [lia| exact Hned|]. intros i Hi. apply Hd_i. lia. }
+    split; [intros x y; reflexivity|]. apply upd2_same_value. rewrite T.
+    assert (Z : nthq (row (R m) s) a + gam m * maxl (row qa s1) - (qget qc s a - qget qa s a) == 0) by (rewrite (Hc s a); lra).
+    rewrite Z. lra.
 Qed.
